@@ -13,43 +13,63 @@ open KB Generated
 theorem floor_monotone (c : Cfg) (s : BState) (rev : Nat) (mask : Nat → DelOutcome)
     (hc : s.committed < 2 ^ 64) :
     floorOf c s.store ≤ floorOf c (doCompact c s rev mask).2.store := by
-  sorry
+  have hrev : clampRev s rev < 2 ^ 64 := Nat.lt_of_le_of_lt (clampRev_le s rev) hc
+  rw [doCompact_floor c s rev mask hrev]
+  exact Nat.le_max_left _ _
 
 /-- Once a compaction at revision R has been accepted (answered with header R, R < 2^64), the floor is at least R. -/
 theorem floor_ge_accepted (c : Cfg) (s : BState) (rev : Nat) (mask : Nat → DelOutcome) (R : Nat)
     (h : (doCompact c s rev mask).1 = .ok R) (hR : R < 2 ^ 64) (hfl : floorOf c s.store < 2 ^ 64) :
     R ≤ floorOf c (doCompact c s rev mask).2.store := by
-  sorry
+  have _ := hfl
+  have hR' := doCompact_fst c s rev mask R h
+  subst hR'
+  rw [doCompact_floor c s rev mask hR]
+  exact Nat.le_max_right _ _
 
 /-- Writes never touch the compaction record. -/
 theorem create_keeps_floor (c : Cfg) (s : BState) (k v : Bytes) (fs : List Fault) :
     floorOf c (doCreate c s k v fs).2.store = floorOf c s.store := by
-  sorry
+  exact floorOf_congr c (doCreate_keeps_get c s k v fs)
 
 theorem update_keeps_floor (c : Cfg) (s : BState) (k v : Bytes) (e : Nat) (fs : List Fault) :
     floorOf c (doUpdate c s k v e fs).2.store = floorOf c s.store := by
-  sorry
+  exact floorOf_congr c (doUpdate_keeps_get c s k v e fs)
 
 theorem delete_keeps_floor (c : Cfg) (s : BState) (k : Bytes) (e : Nat) (fs : List Fault) :
     floorOf c (doDelete c s k e fs).2.store = floorOf c s.store := by
-  sorry
+  exact floorOf_congr c (doDelete_keeps_get c s k e fs)
 
 /-- Every range read below the floor is answered with an error rather than with data. -/
 theorem list_below_floor_refused (c : Cfg) (s : BState) (a b : Bytes) (R n : Nat)
     (hR : 0 < R) (hlt : R < floorOf c s.store) (hb : b ≠ []) (hab : cmp a b = .lt) :
     ∃ e, doList c s a b R n = .error e := by
-  sorry
+  have hR0 : (R == 0) = false := by simp; omega
+  have hbf : belowFloor c s.store R = true := by simp [belowFloor, hlt]
+  have hbe : b.isEmpty = false := by cases b <;> simp_all
+  have h1 : ∀ x y m, scanLimited c s.store x y R m = .error .belowFloor := by
+    intro x y m; simp [scanLimited, hbf]
+  have h2 : ∀ x y, scanParts c s.store x y R = .error .belowFloor := by
+    intro x y; simp [scanParts, hbf]
+  refine ⟨.belowFloor, ?_⟩
+  unfold doList
+  by_cases hn : n > 0 <;> simp [hbe, hR0, hab, h1, h2, hn]
 
 /-- Streamed range below the floor: no data batch, one terminator carrying the error. -/
 theorem stream_below_floor_refused (c : Cfg) (s : BState) (start stop : Bytes) (R : Nat)
     (hR : 0 < R) (hlt : R < floorOf c s.store) :
     doStream c s start stop R = .ok { batches := [], endHdr := R, endErr := some .belowFloor } := by
-  sorry
+  have hR0 : (R == 0) = false := by simp; omega
+  have hbf : belowFloor c s.store R = true := by simp [belowFloor, hlt]
+  unfold doStream
+  simp [hR0, scanParts, hbf]
 
 /-- Count is served at the committed revision; it is refused whenever that is below the floor. -/
 theorem count_below_floor_refused (c : Cfg) (hc : c.etcdCompat = true) (s : BState) (a b : Bytes)
     (hlt : s.committed < floorOf c s.store) : doCount c s a b = .error .belowFloor := by
-  sorry
+  have hbf : belowFloor c s.store s.committed = true := by simp [belowFloor, hlt]
+  unfold doCount
+  simp [hc, scanParts, hbf]
 
 /-! Non-vacuity: compact(1009) then compact(1002): the floor stays at 1009 and List@1005 is refused. -/
 def ex0 : BState := { ring := Ring.new 4, dealt := 1010, committed := 1010 }
